@@ -965,6 +965,7 @@ func (v *FnV) mapStore(st *State, mt *types.Map, m Value, k Value, val Value) {
 	v.writeCheck(st, m.S, "map store")
 	st.setHeap(pn, sStore(ph, m.S, sStore(sSelect(ph, m.S), k.S, "true")))
 	st.setHeap(vn, sStore(vh, m.S, sStore(sSelect(vh, m.S), k.S, val.S)))
+	v.logCall(st, &callInfo{full: "mapstore", recv: &m}, nil) // logged when "mapstore" is a log kind
 }
 
 func (v *FnV) mapDelete(st *State, mt *types.Map, m Value, k Value) {
@@ -975,4 +976,5 @@ func (v *FnV) mapDelete(st *State, mt *types.Map, m Value, k Value) {
 	k = v.mapKey(mt, k)
 	v.writeCheck(st, m.S, "map delete")
 	st.setHeap(pn, sStore(ph, m.S, sStore(sSelect(ph, m.S), k.S, "false")))
+	v.logCall(st, &callInfo{full: "mapdelete", recv: &m}, nil)
 }
